@@ -602,3 +602,7 @@ func init() {
 func init() {
 	ctl("snapshot loop trusts every per-table request", "P-NIL-MON", "(*server.OvsdbServer).MonitorCond|deref request of a ranged table", "server", "OvsdbServer", "MonitorCond", kExpr, "request == nil", 0, to("false"))
 }
+
+func init() {
+	ctl("insert exempt for any table's deleted row", "T-UUIDFREE", "Insert|exemption from the lookup keyed by table and uuid", "database/transaction", "Transaction", "Insert", kExpr, "t.deletedRowTables[op.UUID][op.Table]", 0, to("t.DeletedRows[op.UUID]"))
+}
